@@ -119,3 +119,129 @@ def rule_G4(ck, modules=None, floor=5):
                          construct=f"{recv}.{attr} = …")
     if len(stores) < floor:
         ck.unknown(f"only {len(stores)} attribute stores found in compile-phase code (16 confirmed by hand in all modules)")
+
+
+# ---------------------------------------------------------------------------------------------------------------
+# G4.re - behavioural side of G4: an expression node resolved again at another location counter gives that counter's value
+def rule_reresolve(ck):
+    """'.repeat' bodies (and any tree compiled twice) resolve the SAME operator node once per copy. For every arithmetic
+    operator of the registry the node `. op 3` / `op .` is resolved (abstractly) at '.' = A and then at '.' = B; the second
+    result must be what a fresh node gives at B. Operators that fail are reported as ONE finding whose key lists them, so
+    that a change which makes more operators stale is a different finding."""
+    from ..engine.interp import Rec, ClassVal, Raised
+    from .world import eager_interp, Shapes
+    repo = ck.repo
+    I = eager_interp(repo)
+    A, B = 0o1000, 0o2000
+
+    def table():
+        ops = I.module_get("operators", "operators")
+        return ops
+    ps = I.explore(table)
+    if len(ps) != 1 or ps[0].kind != "return" or not isinstance(ps[0].value, dict):
+        ck.unknown("operators.operators does not fold to a dict of registries")
+        return
+    stale, n = [], 0
+    for kind, reg in ps[0].value.items():
+        cont = reg.fields["container"] if isinstance(reg, Rec) else reg
+        for key, ent in sorted(cont.items(), key=lambda kv: str(kv[0])):
+            char, cls = ent if isinstance(ent, tuple) else (key, ent)
+            if not isinstance(cls, ClassVal):
+                continue
+            rt = cls.attrs.get("return_type")
+            if getattr(rt, "name", None) != "int":
+                continue        # '#x', '@x', 'x(x)': operand-shape markers, not arithmetic
+            infix = any(b.name == "InfixOperator" for b in cls.mro())
+
+            def build(sh):
+                dot = sh.mk(I.module_get("types", "InstructionPointer"), None, None)
+                one = sh.number("3", 3)
+                return sh.mk(cls, None, None, dot, one) if infix else sh.mk(cls, None, None, dot)
+
+            def thunk():
+                sh = Shapes(I)
+                node = build(sh)
+                r1 = I.call_method(node, "resolve", [{"emit_address": A}])
+                r2 = I.call_method(node, "resolve", [{"emit_address": B}])
+                fresh = I.call_method(build(sh), "resolve", [{"emit_address": B}])
+                return r1, r2, fresh
+            try:
+                res = I.explore(thunk)
+            except Raised:
+                res = []
+            postfix = any(b.name == "PostfixOperator" for b in cls.mro())
+            name = f"x {char} x" if infix else (f"x{char}" if postfix else f"{char}x")
+            if len(res) != 1 or res[0].kind != "return":
+                ck.unknown(f"operator {name!r}: resolving '. {char} 3' twice does not complete on one path ({res})")
+                continue
+            r1, r2, fresh = res[0].value
+            n += 1
+            ck.instance(("re-resolve", name), {"operator": name, "at A": repr(r1), "again at B": repr(r2), "fresh node at B": repr(fresh)}, fn="operators::wrap_impure")
+            if r2 != fresh:
+                stale.append(name)
+    if n < 15:
+        ck.unknown(f"only {n} arithmetic operators were exercised (20 confirmed by hand)")
+    if stale:
+        ck.violation("operators::wrap_impure", f"the operators {stale} keep the value of their first evaluation on the parse-tree node: resolved again at another location counter "
+                                               "('.repeat 2 { .word . / 3 }' stores the first copy's address twice; so does one tree compiled at two bases)",
+                     construct="stale value on re-resolve: " + " ".join(stale))
+
+
+# ---------------------------------------------------------------------------------------------------------------
+# G4.def - deferred values are immutable, apart from memoising their own final value
+DEFERRED_WRITES = {
+    ("deferred::Deferred._wait", "value"): "memoises the thunk's result once it has returned (C03.R2 checks the order)",
+    ("deferred::Deferred._wait", "settled"): "memoises the thunk's result once it has returned (C03.R2 checks the order)",
+    ("deferred::Promise.settle", "value"): "single assignment of a promise (guarded by the 'settled' assertion, G2.D3)",
+    ("deferred::Promise.settle", "settled"): "single assignment of a promise",
+    ("deferred::LinearPolynomial._wait", "coeffs"): "replaces known variables by their values: the polynomial denotes the same number (C03.R7 wait cases)",
+    ("deferred::LinearPolynomial._wait", "constant_term"): "replaces known variables by their values: the polynomial denotes the same number (C03.R7 wait cases)",
+}
+SELF_MUTATORS = ("append", "extend", "insert", "pop", "remove", "clear", "update", "setdefault", "popitem", "sort", "reverse", "add", "discard")
+
+
+def rule_deferred_immutable(ck):
+    """A Concatenator / LinearPolynomial / Deferred is shared: the accumulated image, the location counter built from its
+    length, thunks and symbol tables all hold references to the same object. A method that updates it in place, or caches
+    something computed from its current content, changes what the other holders see."""
+    repo = ck.repo
+    base = "deferred::BaseDeferred"
+    classes = [q for q in repo.subclasses(base)]
+    if len(classes) < 5:
+        ck.unknown(f"only {len(classes)} subclasses of BaseDeferred found (6 confirmed by hand)")
+    n = 0
+    for cq in classes:
+        cls = repo.cls(cq)
+        for m in cls.body:
+            if not isinstance(m, ast.FunctionDef) or m.name == "__init__":
+                continue
+            q = f"{cq}.{m.name}"
+            n += 1
+            ck.instance(("deferred-method", q), None, fn=q)
+            for node in ast.walk(m):
+                attr = None
+                if isinstance(node, (ast.Assign, ast.AugAssign, ast.AnnAssign, ast.Delete)):
+                    targets = node.targets if isinstance(node, (ast.Assign, ast.Delete)) else [node.target]
+                    for t in targets:
+                        for tt in (t.elts if isinstance(t, (ast.Tuple, ast.List)) else [t]):
+                            root = tt
+                            while isinstance(root, ast.Subscript):
+                                root = root.value
+                            if isinstance(root, ast.Attribute) and norm_text(root.value) == "self":
+                                attr = root.attr
+                elif isinstance(node, ast.Call) and isinstance(node.func, ast.Attribute) and node.func.attr in SELF_MUTATORS:
+                    root = node.func.value
+                    while isinstance(root, ast.Subscript):
+                        root = root.value
+                    if isinstance(root, ast.Attribute) and norm_text(root.value) == "self":
+                        attr = root.attr
+                if attr is None:
+                    continue
+                why = DEFERRED_WRITES.get((q, attr))
+                ck.instance(("deferred-write", q, attr), {"method": q, "write": norm_text(node)[:70], "verdict": "accepted: " + why if why else "in-place update"}, fn=q)
+                if why:
+                    continue
+                ck.violation(node, f"{q.split('::')[1]} updates self.{attr} in place ({norm_text(node)[:60]}): deferred values are shared between the image, the location counter, thunks and the symbol "
+                                   "table; whoever holds the object (or a length computed from it earlier) now sees a different value", construct=f"{q.split('::')[1]} writes self.{attr}")
+    if n < 30:
+        ck.unknown(f"only {n} methods of deferred classes were inspected (over 50 confirmed by hand)")
